@@ -120,6 +120,28 @@ def framing(ctx, P):
         ok2, wit2 = must_pass(b, rets, nxt)
         ctx.check(P + ':S16-2:escape-no-bypass', 'R-dom', 'dash_escape has no exit that bypasses the per-line loop (no unescaped fast path)', ok2 and bool(nxt), function=b.path,
                   witness=fmt_path(b, wit2) if wit2 else None)
+        # the escape prefix written is the one the reader strips: the string literals of both functions contain "- " and no other
+        # dash-led literal (RFC 9580 §7.2: dash, space)
+        def strs(bb):
+            out = []
+            def walk(x):
+                if isinstance(x, dict):
+                    if isinstance(x.get('k'), dict) and 's' in x['k'] and x['k']['s'].startswith('"'):
+                        out.append(x['k']['s'][1:-1])
+                    for v in x.values():
+                        walk(v)
+                elif isinstance(x, list):
+                    for v in x:
+                        walk(v)
+            walk(bb.blocks)
+            walk(bb.r.get('promoted') or [])
+            return out
+        ub = ctx.body(CT + 'dash_unescape_and_trim')
+        w_lit = [x for x in strs(b) if x.startswith('-')]
+        r_lit = [x for x in strs(ub) if x.startswith('-')] if ub is not None else []
+        strip = [t for i, t in ub.calls(r'str::strip_prefix$')] if ub is not None else []
+        ctx.check(P + ':S16-2:escape-prefix-agrees', 'R-table', 'dash_escape prepends "- " and dash_unescape_and_trim strips exactly "- "', w_lit == ['- '] and r_lit == ['- '] and len(strip) == 1,
+                  function=b.path, table=dict(writer=w_lit, reader=r_lit))
         dash = any(has_origin(b.operand_origins(a), r'const:45:char$') for i, t in b.calls(r'starts_with') for a in t['args'])
         ctx.check(P + ':S16-2:escape-char', 'R-table', 'the escaped character is \'-\'', dash, function=b.path)
 
